@@ -392,6 +392,16 @@ def violation(ctx, replay_obj, no_input=False, signature=None):
 
 def finish(ctx, level, coverage, assumptions):
     cov = dict(coverage)
+    # schema hygiene: `exhaustive` is a boolean (explanations go to `exhaustive_note`); distinct_nontrivial counts a
+    # subset of the evaluations, so where a module counts the two in different units the smaller number is reported
+    if 'exhaustive' in cov and not isinstance(cov['exhaustive'], bool):
+        cov['exhaustive_note'] = str(cov['exhaustive'])
+        cov['exhaustive'] = False
+    ev_n, dn = cov.get('evaluations'), cov.get('distinct_nontrivial')
+    if isinstance(ev_n, int) and isinstance(dn, int) and dn > ev_n:
+        cov['distinct_nontrivial_as_counted_by_module'] = dn
+        cov['distinct_nontrivial'] = ev_n
+        cov['distinct_nontrivial_note'] = 'the module counts distinct cases in a finer unit than evaluations; reported conservatively as min(distinct, evaluations)'
     ev = {
         'property_id': ctx.prop, 'tier': ctx.tier, 'seed': ctx.seed, 'level': level,
         'coverage': cov, 'assumptions': assumptions,
